@@ -147,6 +147,22 @@ def cross_machine(d, paths):
                     bad.append(("cross:%s:%s:%s:%d" % (ma, mb, word, t), "%s of a common code (type %d / binding %d) differs between %s and %s" % (word, t, b, ma, mb)))
                 if same is False and holds and (arch_a or arch_b):
                     bad.append(("cross:%s:%s:%s:%d" % (ma, mb, word, t), "machine-specific %s code 13 of %s equals that of %s" % (word, ma, mb)))
+        # one operator instance fed symbols of two machines, in both orders: what it yields for a file must not depend
+        # on the file it saw before (e.g. a constant domain remembered from the first input)
+        # (rendered: the canonical form names a domain by its prefix, which machine-specific families share)
+        for word in ('label "%s"', 'binding "%s"', 'visibility "%s"', "size", "name", "label", "binding"):
+            for first, second, tag in (("A", "B", "ab"), ("B", "A", "ba")):
+                rs = d.batch([drv.run_cmd("(|A B| (%s, %s) symbol %s)" % (first, second, word), i="d1,d2", lim=5000),
+                              drv.run_cmd("(|A B| %s symbol %s)" % (first, word), i="d1,d2", lim=5000),
+                              drv.run_cmd("(|A B| %s symbol %s)" % (second, word), i="d1,d2", lim=5000)])
+                n += 1
+                alone = rs[1].results() + rs[2].results()
+                if any(r.crash for r in rs) or rs[0].results() != alone:
+                    k = next((i for i, (x, y) in enumerate(zip(rs[0].results(), alone)) if x != y), None)
+                    detail = "" if k is None else ": result #%d is %s, alone it is %s" % (k, rs[0].results()[k], alone[k])
+                    bad.append(("stream:%s:%s:%s:%s" % (ma, mb, word, tag),
+                                "`symbol %s` fed the files of %s and %s in one stream (%s first) differs from the two files taken alone%s" % (
+                                    word, ma, mb, ma if first == "A" else mb, detail)))
         d.batch(["close id=d1", "close id=d2"])
     return n, bad
 
